@@ -136,6 +136,67 @@ func taskBlockedForGood(goid int64) (string, bool) {
 	return where, blocked
 }
 
+// rwLayout mirrors sync.RWMutex (go1.18 .. go1.26): the scheduler only *looks* at a lock. Probing it with
+// TryLock/Unlock would add acquire/release edges the race detector sees - edges the library itself
+// does not make (a method that takes the read lock where its hook announces the write lock would be
+// ordered against every other reader by the probe alone).
+type rwLayout struct {
+	wState      int32
+	wSema       uint32
+	writerSem   uint32
+	readerSem   uint32
+	readerCount int32
+	readerWait  int32
+}
+
+var rwLayoutOK = func() bool {
+	if unsafe.Sizeof(sync.RWMutex{}) != unsafe.Sizeof(rwLayout{}) {
+		return false
+	}
+	var m sync.RWMutex
+	l := (*rwLayout)(unsafe.Pointer(&m))
+	if l.wState != 0 || l.readerCount != 0 {
+		return false
+	}
+	m.RLock()
+	if l.readerCount != 1 || l.wState&1 != 0 {
+		return false
+	}
+	m.RUnlock()
+	m.Lock()
+	held := l.wState&1 == 1 && l.readerCount < 0
+	m.Unlock()
+	return held && l.wState&1 == 0 && l.readerCount == 0
+}()
+
+// rwFree: could the lock be taken right now (for writing / for reading)? Called while every other task is
+// parked, so the answer is stable. Falls back to TryLock probing if the layout self-test failed.
+//
+//go:norace
+func rwFree(mu *sync.RWMutex, write bool) bool {
+	if !rwLayoutOK {
+		if write {
+			if mu.TryLock() {
+				mu.Unlock()
+				return true
+			}
+			return false
+		}
+		if mu.TryRLock() {
+			mu.RUnlock()
+			return true
+		}
+		return false
+	}
+	l := (*rwLayout)(unsafe.Pointer(mu))
+	// plain loads: an atomic load would be one more edge for the race detector; every other task is parked
+	rc := l.readerCount
+	if write {
+		return l.wState&1 == 0 && rc == 0
+	}
+	return rc >= 0
+}
+
 const (
 	stReady = iota
 	stWantLock
@@ -158,9 +219,10 @@ type task struct {
 	prio     int
 	stuck    bool // blocked for good inside the library (verdict reached; its goroutine is abandoned)
 	// task-local results
-	ops    []*opRec
-	blocks []ipld.Node
-	name   string
+	ops     []*opRec
+	blocks  []ipld.Node
+	blockAt []int // stamp of each block write (parallel to blocks)
+	name    string
 }
 
 type sched struct {
@@ -254,15 +316,11 @@ func e1BeforeLock(mu *sync.RWMutex, write bool, site string) {
 		}
 		ok := false
 		if write {
-			if ok = mu.TryLock(); ok {
-				mu.Unlock()
-			}
+			ok = rwFree(mu, true)
 		} else if !S.writerPending(mu, t) {
 			// Go's RWMutex makes new readers wait once a writer is blocked in Lock(): a reader that
 			// re-enters RLock behind a pending writer deadlocks, and so it must here
-			if ok = mu.TryRLock(); ok {
-				mu.RUnlock()
-			}
+			ok = rwFree(mu, false)
 		}
 		if ok {
 			t.failedAt = -1
@@ -291,6 +349,7 @@ func e1Add(n ipld.Node) (bool, error) {
 		return true, errInjected
 	}
 	t.blocks = append(t.blocks, n)
+	t.blockAt = append(t.blockAt, S.now())
 	return true, nil
 }
 
